@@ -184,10 +184,15 @@ func ValidateCounterpartyID(id string, protocol ProtocolID) error {
 
 // isInteger returns true if the string can be converted to
 // an integer, false otherwise.
+// isInteger returns true if the string is the canonical decimal representation of a
+// 32 bits unsigned integer, which is how the forwarding attributes format the destination
+// domain of the protocols identifying the counterparty with a number. Non canonical
+// representations of the same number (signs, leading zeros) or numbers out of range are not
+// valid, since they would never match the counterparty ID of a forwarding.
 func isInteger(s string) bool {
-	_, err := strconv.Atoi(s)
+	v, err := strconv.ParseUint(s, 10, 32)
 
-	return err == nil
+	return err == nil && strconv.FormatUint(v, 10) == s
 }
 
 // ID generates an internal identifier for a tuple (bridge protocol, chain).
